@@ -250,6 +250,14 @@ def check(ctx):
             for gid in [g] + others:
                 pl6.append((6, ops, gid, "comp"))
     items.append(("n=6: locally rotated table graph states x own and other classes' table graphs, component oracle", pl6))
+    uni = []
+    for n, conn in M.CONFIGS:
+        for gid in conform.table_graphs(n, conn):
+            base = B.graph_states_gens(n, gid)
+            for c in range(6):
+                ops = [(p[0], p[1]) for p in M.run(M.local_layer_gates([c] * n), n, base)]
+                uni.append((n, ops, gid, True))
+    items.append(("all configurations: every table graph state under the same local Clifford on every qubit vs its own graph (a layer exists)", uni))
     for label, payload in items:
         ctx.phase("%s (%d cases)" % (label, len(payload)))
         nch = min(len(payload), core.NPROC * 2)
